@@ -1484,7 +1484,8 @@ class FortranReaderBase:
                         )
             if self._format.is_fixed:  # Check for switched to free format
                 # check for label
-                s = line[:5].strip().lower()
+                # blanks are not significant in fixed form, also inside a label
+                s = line[:5].replace(" ", "").lower()
                 if s:
                     label = int(s)
                 if not self._format.is_f77:
